@@ -12,7 +12,6 @@ func init() {
 	verifRegister("C04_hist", verifH_C04_hist)
 }
 
-func verifIsPageEvent(ev string) bool { return ev == "page.write" || ev == "header.write" }
 
 // H04-hist: prefix, d acknowledged free statements, then a flush of the page
 // cache is interrupted before one of its page writes or before the header
